@@ -1081,7 +1081,23 @@ pub fn fuzz_entry(target: &str, data: &[u8]) {
     if let Err(f) = run_target(target, data, &mut obs) {
         if !known.iter().any(|k| *k == f.sig) {
             eprintln!("C20 fuzz oracle failure sig={} :: {}", f.sig, f.msg);
-            std::process::abort();
+            // Under the campaign runner the input is saved and the campaign goes on (cargo-fuzz
+            // builds with --cfg fuzzing, under which bitcode accepts trailing bytes, so some
+            // failures exist only in the fuzz build; every saved input is re-checked by the
+            // normal build afterwards). Run by hand, the target stops like any libFuzzer crash.
+            match std::env::var("NV_FUZZ_ARTIFACTS") {
+                Ok(dir) => {
+                    static SAVED: AtomicU64 = AtomicU64::new(0);
+                    if SAVED.fetch_add(1, Ordering::Relaxed) < 64 {
+                        let mut h: u64 = 0xcbf29ce484222325;
+                        for b in data {
+                            h = (h ^ u64::from(*b)).wrapping_mul(0x100000001b3);
+                        }
+                        let _ = std::fs::write(std::path::Path::new(&dir).join(format!("oracle-{h:016x}")), data);
+                    }
+                },
+                Err(_) => std::process::abort(),
+            }
         }
     }
 }
